@@ -33,6 +33,28 @@ _URI_LOOSE = re.compile(r"^([^\s\.#]+\.)*([^\s\.#]+)$")
 for _u in URI_POOL:
     assert _URI_LOOSE.match(_u), _u
 
+# URIs a class can be *registered* under: uri.Pattern (used by @wamp.error and define()) documents components
+# [a-z0-9][a-z0-9_-]* or a <name> placeholder - registering anything else is refused by the API, not by the property
+_REG_COMPONENT = re.compile(r"^([a-z0-9][a-z0-9_\-]*|<[a-z][a-z0-9_]*>)$")
+REG_URI_POOL = ["com.myapp.error", "com.myapp.error.not_found", "com.myapp.error.not_found.deep", "a", "a.b",
+                "wamp.error.runtime_error", "wamp.error.not_authorized", "wamp.error.canceled", "1.2.3",
+                "com.myapp.err-with-dash", "com.myapp.<name>.err", "org.example.very.deep.uri.with.many.components.e1",
+                "wamp.error.invalid_payload", "wamp.error.payload_size_exceeded", "com.myapp.err", "com.myapp.erro",
+                "wamp.error", "com", "com.myapp", "x" * 120 + ".e"]
+for _u in REG_URI_POOL:
+    assert _URI_LOOSE.match(_u) and all(_REG_COMPONENT.match(c) for c in _u.split(".")), _u
+
+
+def related_uris(u):
+    """URIs that an inexact (prefix / suffix / case-folding / truncating) registry lookup would confuse with ``u``."""
+    out = [u + ".sub", u + "x", u + ".0", "x." + u, u.upper() if u.upper() != u else u + ".U"]
+    if "." in u:
+        out.append(u.rsplit(".", 1)[0])
+        out.append(u.split(".", 1)[1])
+    if len(u) > 1 and not u[:-1].endswith("."):
+        out.append(u[:-1])
+    return [x for x in out if x != u and _URI_LOOSE.match(x)]
+
 
 class PayloadGen:
     """Values in the property's claim: ints up to 2^53, floats, bool, None, unicode (BMP, astral, controls),
@@ -182,7 +204,9 @@ def brief(v, n=300):
 # exception classes of every constructor kind
 # ---------------------------------------------------------------------------------------------
 
-CTOR_KINDS = ["plain", "kw", "arity0", "arity2", "kwonly", "picky", "raising", "falsy", "appsub", "appfixed"]
+CTOR_KINDS = ["plain", "kw", "arity0", "arity2", "kwonly", "picky", "raising", "falsy", "formatting", "appsub", "appfixed"]
+# kinds whose instances carry keyword arguments (an ``kwargs`` dict attribute, the library's convention)
+KW_KINDS = ("kw", "kwonly", "picky", "raising", "appsub", "appfixed")
 RAISING_WITH = ["RuntimeError", "TypeError", "KeyError", "ApplicationError", "ZeroDivisionError"]
 
 
@@ -239,6 +263,10 @@ def make_class(kind, env, base=None, fixed_uri=None, raising_with="RuntimeError"
                         "constructor refuses")
                 Exception.__init__(self, *a)
                 self.kwargs = kw
+    elif kind == "formatting":
+        class X(B):                     # the classic: structured parameters, formatted message as the only arg
+            def __init__(self, code, detail):
+                Exception.__init__(self, "error %r: %r" % (code, detail))
     elif kind == "falsy":
         class X(B):
             def __len__(self):          # e.g. a multi-error container: empty == falsy
